@@ -84,4 +84,17 @@ def run(out, tier, seed):
         for _ in range(8):
             jobs.append({"cfg": {"facade": "dataset" if ds else "graph", "union_default": bool(i % 2)},
                          "events": [data, {"op": "query", "q": qgen.as_query(rng, gen_noleak(rng, ds), ds)}]})
+    # wide data: operands of a dozen rows (evaluation strategies that switch on operand size), the same subjects in several graphs
+    wq = qgen.wide_queries()
+    out.extra["wide_queries"] = len(wq)
+    stride = 6 if quick else 1
+    for di in range(2 if quick else 6):
+        gdata = {"op": "data", "quads": [t + ["D"] for t in qgen.wide_graph(rng)], "graphs": []}
+        ddata = qgen.wide_dataset(rng)
+        for i, w in enumerate(wq):
+            if (i + di + seed) % stride:
+                continue
+            ds = uses_graph(w)
+            q = {"form": "select", "proj": ["*"], "where": w}
+            jobs.append({"cfg": {"facade": "dataset", "union_default": bool(i % 2)} if ds else {"facade": "graph"}, "events": [ddata if ds else gdata, {"op": "query", "q": q}]})
     out.conform(__name__, TRACE, jobs, nontrivial=nontrivial, chunk=400, par=16)
